@@ -103,7 +103,7 @@ func ruleCloseOnce() check.Rule {
 				})
 				for ch := range chans {
 					c.Inc("channels", 1)
-					key := fmt.Sprintf("%s/chan-%s/close", sc, ch.Name())
+					key := fmt.Sprintf("%s/%s/close", sc, chanLabel(sc, ch))
 					ss := sites[ch]
 					switch {
 					case len(ss) == 0 && chanConsumed(m, sc, ch):
@@ -151,7 +151,7 @@ func ruleCloseOnce() check.Rule {
 							return send == nil
 						})
 						if send != nil {
-							c.Report(armed, fmt.Sprintf("%s/chan-%s/consumed", sc, ch.Name()), send.Pos(), "the operator sends into a channel that it neither emits to the destination nor reads itself: nobody can receive what was sent")
+							c.Report(armed, fmt.Sprintf("%s/%s/consumed", sc, chanLabel(sc, ch)), send.Pos(), "the operator sends into a channel that it neither emits to the destination nor reads itself: nobody can receive what was sent")
 						}
 					}
 					// closed on unsubscription: some close of the channel executes in a teardown context
@@ -167,7 +167,7 @@ func ruleCloseOnce() check.Rule {
 								}
 							}
 						}
-						tkey := fmt.Sprintf("%s/chan-%s/closed-by-teardown", sc, ch.Name())
+						tkey := fmt.Sprintf("%s/%s/closed-by-teardown", sc, chanLabel(sc, ch))
 						if inTeardown {
 							if armed {
 								c.OK(tkey, ch.Pos(), "the teardown reaches a close of the channel: an unsubscription ends the consumer's loop")
